@@ -93,8 +93,13 @@ def parse_vwsc_data(fdata: bytes) -> List[Any]:
         logging.debug("channelSize: %d", channelSize)
         if channelSize == 2:
             logging.debug('This frame is equals to the previous one!')
-            last_idx = len(vwsc_data) - 1
-            vwsc_data.append(vwsc_data[last_idx])
+            if len(vwsc_data) == 0:
+                # Nothing before the first frame: it repeats the initial (empty) state
+                vwsc_data.append(cparser.parse_vwsc_channels(channelDataList,
+                                                             column))
+            else:
+                last_idx = len(vwsc_data) - 1
+                vwsc_data.append(vwsc_data[last_idx])
             continue
         
         channelSize -= 2
